@@ -771,6 +771,8 @@ func c19RunP2(c *c19Case, r *core.Rec) {
 	countBlocks(volSpec, 2, 5)
 	bound := c19AllocBound(presentBytes, declSlice, 5)
 
+	var memObs scen.P2Obs
+	memPanic := false
 	var ms0, ms1 runtime.MemStats
 	for _, op := range []string{"verify", "repair"} {
 		f2 := fs.Clone()
@@ -791,6 +793,14 @@ func c19RunP2(c *c19Case, r *core.Rec) {
 		r.AddTransitions(1)
 		alloc := ms1.TotalAlloc - ms0.TotalAlloc
 		what := fmt.Sprintf("PAR2 %v (where=%d data=%d) %s", c.Names, c.Where, c.Data, op)
+		if op == "verify" {
+			memObs.VerifyErr, memObs.Counts = verr, counts
+		} else {
+			memObs.RepairErr, memObs.RepairedPaths, memObs.After = verr, rres.RepairedPaths, f2.Snapshot()
+		}
+		if pi != nil {
+			memPanic = true
+		}
 		if pi != nil {
 			r.Violatef(op+"-panic:"+pi.Frame+":"+panicClass(pi.Value), "%s: %s\n%s", what, pi.Value, pi.Stack)
 			continue
@@ -834,6 +844,11 @@ func c19RunP2(c *c19Case, r *core.Rec) {
 		if verr != nil {
 			r.Count("rejected_"+op, 1)
 		}
+	}
+	// single mutations also run through the exported API on a real directory (same observations required)
+	if len(c.Muts) == 1 && !memPanic && declSlice <= 1<<20 {
+		twin := &scen.P2Set{Index: "/d/s.par2"}
+		diskTwinP2(twin, fs, &memObs, &p2Case{G: 1, DoubleCheck: false}, r)
 	}
 	r.AddStates(1)
 	r.NontrivialCase()
